@@ -18,7 +18,9 @@ import (
 	"fmt"
 	"sort"
 	"strings"
+	"sync/atomic"
 	"testing"
+	"time"
 
 	"github.com/zeromicro/go-zero/core/discov/internal"
 	"github.com/zeromicro/go-zero/core/logx"
@@ -45,7 +47,13 @@ type viewChecker struct {
 	undetermined int        // events after which the model left a value's membership open
 	rd           *readerSet // background readers (concurrent units), nil otherwise
 	wild         bool       // the event in flight hands over more than one change
+	// patience > 0 (pipeline units): the view is fed by watch goroutines and the harness' barrier
+	// after a reload is heuristic, so a view that does not match yet is re-read until it does or
+	// the patience is used up; only a mismatch that persists is a complaint (counted when it helped)
+	patience time.Duration
 }
+
+var c13LateViews atomic.Int64
 
 // attachReaders starts background readers of this view (see c13_readers_test.go).
 func (vc *viewChecker) attachReaders(plans []readerPlan) {
@@ -104,7 +112,16 @@ func (vc *viewChecker) after(b viewBefore) string {
 func (vc *viewChecker) afterSequential(b viewBefore) string {
 	got := vc.values()
 	if msg := vc.m.verdict(got); msg != "" {
-		return fmt.Sprintf("%s: Values()=%v, registry %s", msg, sortedCopy(got), vc.m)
+		for deadline := time.Now().Add(vc.patience); msg != "" && time.Now().Before(deadline); {
+			time.Sleep(5 * time.Millisecond)
+			got = vc.values()
+			if msg = vc.m.verdict(got); msg == "" {
+				c13LateViews.Add(1)
+			}
+		}
+		if msg != "" {
+			return fmt.Sprintf("%s: Values()=%v, registry %s", msg, sortedCopy(got), vc.m)
+		}
 	}
 	// a second read must serve the same (cached) view
 	if again := vc.values(); !sameSet(setOf(again), setOf(got)) || len(again) != len(got) {
